@@ -107,11 +107,12 @@ func FsPath(path string, flags FsFlags) (afero.Fs, error) {
 
 // validObjectKey reports whether key maps to a file of its own below the
 // bucket directory: a relative, slash separated path without empty, "." or
-// ".." segments. Any other key would be cleaned by path.Join into the path of
+// ".." segments and without NUL bytes. Any other key would be cleaned by path.Join into the path of
 // a different key, of the bucket directory itself or of something outside the
 // bucket.
 func validObjectKey(key string) bool {
-	if key == "" {
+	if key == "" || strings.IndexByte(key, 0) >= 0 {
+		// (no file name contains a NUL byte)
 		return false
 	}
 	for _, segment := range strings.Split(key, "/") {
